@@ -221,7 +221,7 @@ def mk_nexthop(ctx, n, tag=''):
     return nh, ip
 
 
-PROFILES_QUICK = ['defaults', 'basic', 'segments', 'communities', 'seq3']
+PROFILES_QUICK = ['defaults', 'basic', 'segments', 'communities', 'seq3', 'empty-path']
 PROFILES_THOROUGH = PROFILES_QUICK + ['all']
 FILLER = [64512 + i for i in range(64)]  # concrete private ASNs making the long AS_PATH long
 
@@ -275,6 +275,14 @@ def mk_attributes(ctx, profile, nh_attr):
         lp = ctx.int('local-pref', 0, 2 ** 32 - 1)
         a.add(LocalPreference.from_int(lp))
         req[O.LOCAL_PREF] = lp
+    if profile == 'empty-path':
+        # `as-path [ ]`: the operator GAVE an AS_PATH, an empty one (static.parser.as_path -> make_aspath([])): it is sent as
+        # given, also on an EBGP session (the local AS is the default for a route WITHOUT an as-path only)
+        req[O.AS_PATH] = []
+        a.add(mk_aspath(ctx, [], 'parser'))
+        med = ctx.int('med', 0, 2 ** 32 - 1)
+        a.add(MED.from_int(med))
+        req[O.MED] = med
     if profile == 'segments':
         asns = [ctx.int('asn%d' % i, 0, 2 ** 32 - 1) for i in range(3)]
         segs = [(O.AS_SEQUENCE, asns[:1]), (O.AS_SET, asns[1:])]
